@@ -22,7 +22,8 @@ func init() {
 			"V4 chunk files of a non-volatile stage are reclaimed only if the stage splits, " +
 			"V5 top-level outputs and retains are registered with the nil consumer which can never be removed, and dynamic forks inherit both maps, " +
 			"V6 fileArgs/filePostNodes/fileParamMap are only accessed under Fork.storageLock outside the constructor phase, " +
-			"V7 alias completeness: once a file is known to exist every returning path of getLogicalFileNames consults filepath.EvalSymlinks and appends its result. " +
+			"V7 alias completeness: once a file is known to exist every returning path of getLogicalFileNames consults filepath.EvalSymlinks and appends its result, " +
+			"V8 whole-call references: LazyArgumentMap.jsonPath maps the empty output id to the whole outs map (or every call site excludes the empty path). " +
 			"NOT decided: whether the names found are every alias of a file, anyOverlap (file-system values).",
 		Assumptions: commonAssumptions,
 	}
@@ -68,6 +69,7 @@ func runC04(c *an.Ctx) {
 	ruleV5(c)
 	ruleV6(c)
 	ruleV7(c)
+	ruleV8(c)
 }
 
 func ruleV1(c *an.Ctx) {
@@ -865,4 +867,73 @@ func ruleV7(c *an.Ctx) {
 		}
 	})
 	c.Check("V7", "resolved-name-returned@getLogicalFileNames", fn.Pos(), flows, "the EvalSymlinks result must be appended to the list of names")
+}
+
+// V8 whole-call references.  A consumer bound to a whole call (p = PRODUCER), a top-level return of a
+// call and a retain of a struct register their keep-alive under the empty output id, and
+// removeEmptyFileArgs / addFilesToArgsMappings resolve that id with LazyArgumentMap.jsonPath("").  The
+// empty path must denote the whole outs map; if it resolves to nothing the argument is judged to name
+// no files, is dropped, and the producer's files are reclaimed while the consumer still needs them.
+// Necessary condition: jsonPath returns its receiver on the edge where the path is empty, or every
+// call of it is dominated by a test that the path is not empty.
+func ruleV8(c *an.Ctx) {
+	p := c.P
+	fn := c.NeedFunc(pkgCore, "(LazyArgumentMap).jsonPath")
+	if fn == nil {
+		return
+	}
+	if len(fn.Params) != 2 {
+		c.Undecided("V8", "empty-path-is-whole-map@(LazyArgumentMap).jsonPath", fn.Pos(), "unexpected signature")
+		return
+	}
+	recv, path := ssa.Value(fn.Params[0]), ssa.Value(fn.Params[1])
+	isEmptyTest := func(v ssa.Value, op token.Token) func(r an.Rel) bool {
+		return func(r an.Rel) bool {
+			chk := func(x, y ssa.Value, o token.Token) bool {
+				if x == v && an.IsStringConst(y, "") {
+					return o == op
+				}
+				if args, ok := an.IsBuiltinCall(x, "len"); ok && len(args) == 1 && args[0] == v && an.IsIntConst(y, 0) {
+					if op == token.EQL {
+						return o == token.EQL || o == token.LEQ
+					}
+					return o == token.NEQ || o == token.GTR
+				}
+				return false
+			}
+			f := r.Flip()
+			return chk(r.X, r.Y, r.Op) || chk(f.X, f.Y, f.Op)
+		}
+	}
+	inFn := false
+	an.Instrs(fn, func(in ssa.Instruction) {
+		r, ok := in.(*ssa.Return)
+		if !ok || len(r.Results) != 1 {
+			return
+		}
+		v := an.RetVal(r, 0)
+		if mi, ok := v.(*ssa.MakeInterface); ok && mi.X == recv {
+			if g, _ := an.GuardedBy(r, isEmptyTest(path, token.EQL)); g {
+				inFn = true
+			}
+		}
+	})
+	callersOK := true
+	nCalls := 0
+	for caller, sites := range p.Callers(fn) {
+		_ = caller
+		for _, s := range sites {
+			nCalls++
+			args := s.Common().Args
+			if len(args) != 2 {
+				callersOK = false
+				continue
+			}
+			if g, _ := an.GuardedBy(s.(ssa.Instruction), isEmptyTest(args[1], token.NEQ)); !g {
+				callersOK = false
+			}
+		}
+	}
+	c.Check("V8", "empty-path-is-whole-map@(LazyArgumentMap).jsonPath", fn.Pos(), inFn || (callersOK && nCalls > 0),
+		fmt.Sprintf("whole-call references keep files alive under the empty output id; jsonPath must return the whole map for the empty path (handled in the function: %v) or every one of its %d call sites must exclude the empty path (%v); otherwise such an argument is judged to name no files and the producer's files are removed while still needed", inFn, nCalls, callersOK))
 }
